@@ -221,15 +221,31 @@ Definition trim_suffix_slash (s : bytes) : bytes :=
   | [] => s
   end.
 
-(* pathOutsideBaseDirectory(baseDir, fullPath): the resolved parent must be Clean(baseDir) itself or
-   start with Clean(baseDir) + "/" (path-wise, since the fix c7e8b5e1) *)
+(* the loop of pathOutsideBaseDirectory (fix 05026580): deepest existing ancestor of the parent
+   directory, never looking above Clean(baseDir) *)
+Fixpoint existing_ancestor (n : nat) (fs : fsmap) (b p : bytes) : bytes :=
+  match n with
+  | O => p
+  | S n' =>
+      if beq p b then p
+      else if is_some (klstat fs p) then p
+      else existing_ancestor n' fs b (dir_of p)
+  end.
+
+(* path-wise "c is b or below b" on cleaned strings *)
+Definition str_inside (c b : bytes) : bool :=
+  beq c b || has_prefix c (trim_suffix_slash b ++ [SL]).
+
+(* pathOutsideBaseDirectory(baseDir, fullPath): the resolved deepest existing ancestor of the parent
+   must be Clean(baseDir) itself or start with Clean(baseDir) + "/"; a baseDir that does not exist
+   yet has nothing to escape through *)
 Definition path_outside_base (fs : fsmap) (base full : bytes) : bool :=
-  match eval_symlinks fs (dir_of full) with
+  let b := clean base in
+  let anc := existing_ancestor (S (length full)) fs b (dir_of full) in
+  if negb (is_some (klstat fs anc)) && beq anc b then false else
+  match eval_symlinks fs anc with
   | None => true
-  | Some resolved =>
-      let c := clean resolved in
-      let b := clean base in
-      negb (beq c b || has_prefix c (trim_suffix_slash b ++ [SL]))
+  | Some resolved => negb (str_inside (clean resolved) b)
   end.
 
 Definition ustate := (fsmap * list bytes)%type.
@@ -244,11 +260,12 @@ Definition unpack_entry (cfg : ucfg) (req : bytes -> bool) (st : ustate) (e : en
   let full := join2 (u_dir cfg) cp in
   if is_some (klstat fs full) then (st, false) else
   if negb (required req tg full cp) then (st, false) else
+  (* fix 05026580: the containment check comes before anything is created, for every entry type *)
+  if path_outside_base fs (u_dir cfg) full then (st, false) else
   match e_type e with
   | TReg =>
       let '(fs1, ok) := mkdir_all fs (dir_of full) in
       if negb ok then ((fs1, tg), true) else
-      if path_outside_base fs1 (u_dir cfg) full then ((fs1, tg), false) else
       match kwrite fs1 full (e_cid e) (e_size e) with
       | Some fs2 => ((fs2, tg), false)
       | None => ((fs1, tg), true)
@@ -320,8 +337,24 @@ Fixpoint links_below (fs : fsmap) (root : path) : list (path * bytes) :=
   | _ :: r => links_below r root
   end.
 
+(* one symlink visited by the walk (fix 7b96bcf8): kept only when its destination exists AND
+   resolves to the resolved root or below it *)
+Definition obsolete_step (rr : bytes) (fs' : fsmap) (p : path) (wpath : bytes) (t : bytes) : fsmap :=
+  let lt := if is_abs t then t else join2 (dir_of wpath) t in
+  let keep := match kstat fs' lt with
+              | Some _ => match eval_symlinks fs' wpath with
+                          | Some dest => str_inside dest rr
+                          | None => false
+                          end
+              | None => false
+              end in
+  if keep then fs' else fs_remove fs' p.
+
 (* returns (fs', error?) *)
 Definition remove_obsolete (fs : fsmap) (dir : bytes) : fsmap * bool :=
+  match eval_symlinks fs dir with
+  | None => (fs, true)
+  | Some rr =>
   match klstat fs dir with
   | None => (fs, true)
   | Some NDir =>
@@ -329,29 +362,26 @@ Definition remove_obsolete (fs : fsmap) (dir : bytes) : fsmap * bool :=
       | Some rootp =>
           let cd := clean dir in
           (fold_left (fun fs' (pt : path * bytes) =>
-                        let '(p, t) := pt in
-                        let wpath := join_slash (cd :: skipn (length rootp) p) in
-                        let lt := if is_abs t then t else join2 (dir_of wpath) t in
-                        match kstat fs' lt with
-                        | Some _ => fs'
-                        | None => fs_remove fs' p
-                        end) (psort (links_below fs rootp)) fs, false)
+                        obsolete_step rr fs' (fst pt) (join_slash (cd :: skipn (length rootp) (fst pt))) (snd pt))
+                     (psort (links_below fs rootp)) fs, false)
       | None => (fs, true)
       end
   | Some (NFile _ _) => (fs, false)
   | Some (NLink t) =>
       (* WalkDir on a root that is itself a link visits only the root *)
-      let lt := if is_abs t then t else join2 (dir_of dir) t in
-      match kstat fs lt, kwalk fs dir false with
-      | None, Some p => (fs_remove fs p, false)
-      | _, _ => (fs, false)
+      match kwalk fs dir false with
+      | Some p => (obsolete_step rr fs p dir t, false)
+      | None => (fs, false)
       end
+  end
   end.
 
-(* UnpackSquashedFromTarball on an already flattened entry list *)
+(* UnpackSquashedFromTarball on an already flattened entry list; RemoveObsoleteSymlinks is deferred,
+   i.e. it also runs when a pass failed *)
 Definition unpack_all (cfg : ucfg) (req : bytes -> bool) (fs : fsmap) (es : list entry) : fsmap * bool :=
   let '((fs1, _), err) := unpack_passes (u_passes cfg) cfg req (fs, []) es in
-  if err then (fs1, true) else remove_obsolete fs1 (u_dir cfg).
+  let '(fs2, err2) := remove_obsolete fs1 (u_dir cfg) in
+  (fs2, err || err2).
 
 (* ------------------------------------------------------------------ image.go (layer scanning) *)
 Definition WH : bytes := [46; 119; 104; 46].   (* ".wh." *)
